@@ -43,19 +43,21 @@ PROCS = 16
 
 ALL_PLACEMENTS = ["modfunc", "method", "nmethod", "closure", "cmethod", "method_cd", "nmethod_cd"]
 ALL_HINTS = ["N", "list", "opt", "dict", "tuple", "Self"]
-SWITCHES = ["GlobalFirst", "FakeFallback", "FrameByCode", "SharedProxy", "CacheFailure"]
+SWITCHES = ["GlobalFirst", "FakeFallback", "FrameByCode", "SharedProxy", "CacheFailure", "MembershipOnly"]
+BOTH = ["plain", "gen"]          # class N: pass   /   class N(list[int]): pass
 V0230 = {"GlobalFirst": True, "FakeFallback": True, "FrameByCode": True, "SharedProxy": False, "CacheFailure": False}
 INVARIANTS = ["UsableOnceDefined", "VerdictAsEvaluated", "UnresolvableRaises", "UnneededEither", "FormsAgree",
               "EvaluatedIsReference", "NoFailureCached"]
 FORMS = ["ev", "str", "inner", "post"]
 
 
-def _cfg(placements, hints, steps, defs, calls, switches=None, invariants=INVARIANTS):
+def _cfg(placements, hints, steps, defs, calls, switches=None, invariants=INVARIANTS, kinds=("plain",)):
     sw = {s: False for s in SWITCHES}
     sw.update(switches or {})
     lines = ["SPECIFICATION Spec", "CONSTANTS",
              "  Placements = {%s}" % ", ".join('"%s"' % x for x in placements),
              "  Hints = {%s}" % ", ".join('"%s"' % x for x in hints),
+             "  Kinds = {%s}" % ", ".join('"%s"' % x for x in kinds),
              f"  MaxSteps = {steps}", f"  MaxDefs = {defs}", f"  MaxCalls = {calls}"]
     lines += [f"  {s} = {'TRUE' if v else 'FALSE'}" for s, v in sw.items()]
     lines += [f"INVARIANT {i}" for i in invariants]
@@ -67,12 +69,13 @@ def _cfg(placements, hints, steps, defs, calls, switches=None, invariants=INVARI
 class Prog:
     """One behaviour of FwdRef.tla: placement, hint, local names, the statements in order."""
 
-    def __init__(self, p, h, lnames, cdef, steps):
+    def __init__(self, p, h, lnames, cdef, steps, gk="plain"):
         self.p, self.h, self.lnames, self.cdef = p, h, sorted(lnames), bool(cdef)
+        self.gk = gk                # "gen": the classes named N are user generics, class N(list[int])
         self.steps = steps          # list of `last` records (dicts), Init excluded
 
     def key(self):
-        return json.dumps([self.p, self.h, self.lnames, self.cdef,
+        return json.dumps([self.p, self.h, self.gk, self.lnames, self.cdef,
                            [[s["act"], s["s"], s["n"], s["f"], _objkey(s["obj"])] for s in self.steps]])
 
     def calls(self):
@@ -90,12 +93,12 @@ class Prog:
         return bool(c) and all(s["evok"] for s in c)
 
     def to_json(self):
-        return {"p": self.p, "h": self.h, "lnames": self.lnames, "cdef": self.cdef,
+        return {"p": self.p, "h": self.h, "gk": self.gk, "lnames": self.lnames, "cdef": self.cdef,
                 "steps": [_plain(s) for s in self.steps]}
 
     @staticmethod
     def from_json(d):
-        return Prog(d["p"], d["h"], d["lnames"], d["cdef"], d["steps"])
+        return Prog(d["p"], d["h"], d["lnames"], d["cdef"], d["steps"], d.get("gk", "plain"))
 
 
 def _plain(x):
@@ -109,7 +112,7 @@ def _plain(x):
 
 
 def _objkey(o):
-    return [o["shape"], o["a"]["t"], o["a"]["c"], o["b"]["t"], o["b"]["c"]]
+    return [o["shape"], o["a"]["t"], o["a"]["c"], o["a"].get("q", ""), o["b"]["t"], o["b"]["c"], o["b"].get("q", "")]
 
 
 def _self_name(p):
@@ -135,7 +138,7 @@ def hint_src(h, p, form):
 
 def _objsrc(o):
     def atom(a):
-        return {"inst": f"('inst', {a['c']})", "unrel": "('unrel', 0)", "none": "('none', 0)"}[a["t"]]
+        return {"inst": f"('inst', {a['c']}, {a.get('q', '')!r})", "unrel": "('unrel', 0)", "none": "('none', 0)"}[a["t"]]
     if o["shape"] == "tuple":
         return f"('tuple', {atom(o['a'])}, {atom(o['b'])})"
     return f"({o['shape']!r}, {atom(o['a'])})"
@@ -158,7 +161,9 @@ def render(prog, form, rtmod="c07rt"):
     def cls_stmt(ind, n):
         # a NEW class object named n; the qualified name is made unique so that beartype's
         # repr-keyed hint caches (property C14) cannot confuse two definitions
-        return [f"{ind}class {n}:", f"{ind}    __qualname__ = _R.qn({n!r})", f"{ind}_R.reg({n})"]
+        # (program kind "gen": N is a user generic whose pseudo-superclass constrains its contents)
+        base = "(list[int])" if prog.gk == "gen" and n == "N" else ""
+        return [f"{ind}class {n}{base}:", f"{ind}    __qualname__ = _R.qn({n!r})", f"{ind}_R.reg({n})"]
 
     def def_stmt(ind, fname, selfarg):
         lines = []
@@ -274,6 +279,8 @@ class Run:
 
     def atom(self, a):
         if a[0] == "inst":
+            if len(a) > 2 and a[2]:          # instance of a generic N(list[int]): conforming / violating contents
+                return self.classes[a[1]]([1] if a[2] == "ok" else ["a"])
             return self.classes[a[1]]()
         if a[0] == "unrel":
             return Unrelated()
@@ -421,7 +428,7 @@ def _prog_from_labels(labels):
     lnames = _field(first, "lnames")
     cdef = _field(first, "cls") not in ((), None)
     steps = [_field(lb, "last") for lb in labels[1:]]
-    return Prog(p, h, lnames, cdef, steps)
+    return Prog(p, h, lnames, cdef, steps, _field(first, "gk"))
 
 
 def programs_from_graph(dot):
@@ -448,7 +455,7 @@ def programs_from_sim(behs):
             continue
         st0 = beh[0][1]
         steps = [st["last"] for _, st in beh[1:]]
-        progs.append(Prog(st0["p"], st0["h"], st0["lnames"], st0["cls"] not in ((), None), steps))
+        progs.append(Prog(st0["p"], st0["h"], st0["lnames"], st0["cls"] not in ((), None), steps, st0["gk"]))
     return progs
 
 
@@ -468,6 +475,8 @@ ROUTE_TEXT = {
     "capglobal": "at decoration the module's class was captured for a name that is local to the enclosing function",
     "sharedproxy": "second activation's hint replaced by the first activation's hint object (proxies shared)",
     "unresolved": "proxy raised although the name is lexically bound",
+    "membershiponly": "a forward reference resolved to a user generic (class N(list[int])) is checked for class "
+                      "membership only: the contents the generic's pseudo-superclass demands are not checked",
 }
 DEVIATION_ROUTES = ["fake", "otherframe", "global", "capglobal"]     # sharedproxy was repaired (fix c823ac1)
 
@@ -479,7 +488,7 @@ def _model_form(fm):
 class Judge:
     def __init__(self, rep):
         self.rep = rep
-        self.stats = {"calls": 0, "want_fwdref_only": 0, "want_either": 0, "defined_later_resolved": 0,
+        self.stats = {"generic_bad_contents_via_forward_ref": 0, "calls": 0, "want_fwdref_only": 0, "want_either": 0, "defined_later_resolved": 0,
                       "usable_after_fwdref": 0, "ev_compared": 0, "forms_compared": 0, "programs": 0,
                       "real_equals_model_0230": 0, "real_differs_from_model_0230": 0}
         self.routes = {}
@@ -502,6 +511,12 @@ class Judge:
                 self.stats["want_either"] += 1
             if not s["evok"] and "fwdref" not in want:
                 self.stats["defined_later_resolved"] += 1
+            # an instance of the right generic class with violating contents, the name resolved through a proxy:
+            # only the pseudo-superclass check can reject it
+            if want == {"violation"} and s["got"]["str"] == "violation" and \
+                    any(a["t"] == "inst" and a.get("q") == "bad" for a in (s["obj"]["a"], s["obj"]["b"])) and \
+                    any(v in ("global", "frame", "cell", "otherframe") for v in (s["via"]["a"], s["via"]["b"])):
+                self.stats["generic_bad_contents_via_forward_ref"] += 1
             for r in (s["blame"]["str"]["a"], s["blame"]["str"]["b"]):
                 if r and model:
                     self.routes[r] = self.routes.get(r, 0) + 1
@@ -550,6 +565,12 @@ class Judge:
             # the mechanism at a site: where the definition is placed, which resolution route went wrong
             key = {"placement": prog.p, "route": route}
             why = ROUTE_TEXT.get(route, route)
+        elif real == "accept" and want == {"violation"} and got == "violation" and any(
+                a["t"] == "inst" and a.get("q") == "bad" for a in (s["obj"]["a"], s["obj"]["b"])):
+            # the switch MembershipOnly of FwdRef.tla (off in the model of the unchanged tree)
+            key = {"placement": prog.p, "route": "membershiponly"}
+            why = ("a forward reference resolved to a user generic (class N(list[int])) is checked for class "
+                   "membership only: the contents the generic's pseudo-superclass demands are not checked")
         else:
             key = {"placement": prog.p, "hint": prog.h, "form": fm, "real": real, "allowed": sorted(want),
                    "model_0230": got, "unmodelled": True}
@@ -620,7 +641,10 @@ class Judge:
 
 def _fmt_obj(o):
     def atom(a):
-        return {"inst": f"instance of class #{a['c']}", "unrel": "instance of an unrelated class", "none": "None"}[a["t"]]
+        cont = {"ok": " (generic, conforming contents [1])", "bad": " (generic, violating contents ['a'])"}.get(
+            a.get("q", ""), "")
+        return {"inst": f"instance of class #{a['c']}{cont}", "unrel": "instance of an unrelated class",
+                "none": "None"}[a["t"]]
     if o["shape"] == "tuple":
         return f"({atom(o['a'])}, {atom(o['b'])})"
     if o["shape"] == "list":
@@ -639,7 +663,10 @@ MUTANTS = [  # switch, placements, hints, invariants that may report it
     ("FrameByCode", ["closure"], ["N"], VERDICT_INVS),
     ("SharedProxy", ["closure"], ["list"], VERDICT_INVS),
     ("CacheFailure", ["modfunc"], ["N"], {"UsableOnceDefined"}),
+    # a resolved forward reference to a user generic checks class membership only
+    ("MembershipOnly", ["modfunc", "closure"], ["N", "list", "opt"], {"VerdictAsEvaluated", "FormsAgree"}),
 ]
+MUTANT_KINDS = {"MembershipOnly": ["gen"]}
 
 
 def _coverage(out):
@@ -655,17 +682,18 @@ def _coverage(out):
 def _job_mutant(d, k):
     sw, pls, hints, allowed = MUTANTS[k]
     cfg = write_file(d, f"mut{k}.cfg", _cfg(pls, hints, 9, 2, 2, {sw: True},
-                                            invariants=[i for i in INVARIANTS if i != "NoFailureCached"]))
+                                            invariants=[i for i in INVARIANTS if i != "NoFailureCached"],
+                                            kinds=MUTANT_KINDS.get(sw, ["plain"])))
     return tlc.run_tlc("FwdRef.tla", cfg, workers=2)
 
 
-def _job_intended(d, k, pls, hints, steps, defs, calls):
-    cfg = write_file(d, f"int{k}.cfg", _cfg(pls, hints, steps, defs, calls))
+def _job_intended(d, k, pls, hints, steps, defs, calls, kinds=("plain",)):
+    cfg = write_file(d, f"int{k}.cfg", _cfg(pls, hints, steps, defs, calls, kinds=kinds))
     return tlc.run_tlc("FwdRef.tla", cfg, coverage=True, workers=16)
 
 
-def _job_graph(d, label, pls, hints, steps, defs, calls):
-    cfg = write_file(d, f"g_{label}.cfg", _cfg(pls, hints, steps, defs, calls, V0230, invariants=[]))
+def _job_graph(d, label, pls, hints, steps, defs, calls, kinds=("plain",)):
+    cfg = write_file(d, f"g_{label}.cfg", _cfg(pls, hints, steps, defs, calls, V0230, invariants=[], kinds=kinds))
     dot = os.path.join(d, f"g_{label}")
     res = tlc.run_tlc("FwdRef.tla", cfg, dump_dot=dot, workers=4)
     progs, nn, ne = programs_from_graph(dot + ".dot")
@@ -675,7 +703,7 @@ def _job_graph(d, label, pls, hints, steps, defs, calls):
 
 def _job_sim(d, label, pls, hints, steps, defs, calls, num, k, seed):
     seed = seed * 1000 + k
-    cfg = write_file(d, f"s_{label}.cfg", _cfg(pls, hints, steps, defs, calls, V0230, invariants=[]))
+    cfg = write_file(d, f"s_{label}.cfg", _cfg(pls, hints, steps, defs, calls, V0230, invariants=[], kinds=BOTH))
     sd = os.path.join(d, f"sim_{label}")
     os.makedirs(sd)
     res = tlc.run_tlc("FwdRef.tla", cfg, workers=1, simulate=f"file={sd}/tr,num={num}", depth=steps + 1, seed=seed)
@@ -703,6 +731,8 @@ def run(rep, tier, seed):
         "where an unbound name cannot influence the verdict (None for N | None, a non-list for list[N], a first "
         "tuple item that already fails) both the verdict and a forward-reference exception are accepted",
         "programs re-bind a name only when no earlier check may or may not have pinned it (unambiguous first need)",
+        "user generics are class N(list[int]) with the one-item contents [1] (conforming) or ['a'] (violating); within "
+        "one program every class statement of the name N is of the same kind",
     ]
     quick = tier == "quick"
     t0 = time.time()
@@ -711,14 +741,17 @@ def run(rep, tier, seed):
     five = ["N", "list", "opt", "dict", "tuple"]
     if quick:
         intended = [(class_pl, ALL_HINTS, 7, 2, 2), (fun_pl, ["N", "list", "tuple"], 7, 2, 2),
-                    (fun_pl, ["opt", "dict"], 6, 2, 2)]
+                    (fun_pl, ["opt", "dict"], 6, 2, 2),
+                    (ALL_PLACEMENTS, ["N", "list", "opt"], 6, 2, 2, ["gen"])]
         graphs = [("cls", class_pl, ["N", "tuple", "Self"], 5, 2, 2), ("fun", fun_pl, ["N", "list"], 6, 2, 2),
-                  ("fun2", ["closure"], ["N", "list"], 7, 2, 1)]
+                  ("fun2", ["closure"], ["N", "list"], 7, 2, 1),
+                  ("gen", ["modfunc", "method", "method_cd", "closure"], ["N", "list", "opt"], 5, 2, 2, ["gen"])]
         sims = [(f"all{k}", ALL_PLACEMENTS, ALL_HINTS, 11, 4, 4, 100, k) for k in range(4)]
     else:
-        intended = [(class_pl, ALL_HINTS, 9, 3, 3), (fun_pl, five, 9, 3, 2)]
+        intended = [(class_pl, ALL_HINTS, 9, 3, 3), (fun_pl, five, 9, 3, 2), (ALL_PLACEMENTS, five, 8, 2, 2, ["gen"])]
         graphs = [("cls", class_pl, ALL_HINTS, 6, 2, 2), ("fun", fun_pl, five, 6, 2, 2),
-                  ("fun2", fun_pl, ["N", "list", "tuple"], 8, 2, 1)]
+                  ("fun2", fun_pl, ["N", "list", "tuple"], 8, 2, 1),
+                  ("gen", class_pl, five, 6, 2, 2, ["gen"]), ("genfun", fun_pl, ["N", "list", "opt"], 6, 2, 2, ["gen"])]
         sims = [(f"all{k}", ALL_PLACEMENTS, ALL_HINTS, 14, 5, 5, 500, k) for k in range(10)] + \
                [(f"fun{k}", fun_pl, ALL_HINTS, 14, 5, 5, 500, 100 + k) for k in range(6)] + \
                [(f"cls{k}", class_pl, ALL_HINTS, 14, 5, 5, 500, 200 + k) for k in range(4)]
@@ -729,9 +762,9 @@ def run(rep, tier, seed):
             f_graph = [ex.submit(_job_graph, d, *g) for g in graphs]
             f_sim = [ex.submit(_job_sim, d, *sm, seed) for sm in sims]
             # ---- R1: the intended design (every switch off) satisfies every invariant
-            for k, (pls, hints, steps, defs, calls) in enumerate(intended):
-                res = _job_intended(d, k, pls, hints, steps, defs, calls)
-                rep.tlc(res, f"FwdRef intended design {pls} x {hints} steps {steps}")
+            for k, (pls, hints, steps, defs, calls, *kinds) in enumerate(intended):
+                res = _job_intended(d, k, pls, hints, steps, defs, calls, *kinds)
+                rep.tlc(res, f"FwdRef intended design {pls} x {hints} steps {steps} kinds {kinds[0] if kinds else ['plain']}")
                 if res.violated:
                     rep.machinery(f"FwdRef.tla with every switch off violates {res.violated} on {pls} x {hints}: "
                                   f"the specification of the intended design is itself inconsistent")
@@ -757,12 +790,13 @@ def run(rep, tier, seed):
                 rep.add("spec_mutants_killed")
                 st0 = res.error_trace[0][1]
                 steps = [st["last"] for _, st in res.error_trace[1:]]
-                mut.append((sw, Prog(st0["p"], st0["h"], st0["lnames"], st0["cls"] not in ((), None), steps)))
+                mut.append((sw, Prog(st0["p"], st0["h"], st0["lnames"], st0["cls"] not in ((), None), steps,
+                                     st0["gk"])))
             # ---- R2: programs
             progs, origin = [], []
             for g, fu in zip(graphs, f_graph):
                 res, ps, nn, ne = fu.result()
-                rep.tlc(res, f"FwdRef 0.23.0 switches, graph {g[0]} {g[1]} x {g[2]} steps {g[3]}")
+                rep.tlc(res, f"FwdRef 0.23.0 switches, graph {g[0]} {g[1]} x {g[2]} steps {g[3]} kinds {g[6] if len(g) > 6 else ['plain']}")
                 rep.add("graph_nodes", nn)
                 rep.add("graph_edges_replayed", ne)
                 progs += ps
@@ -800,7 +834,7 @@ def run(rep, tier, seed):
         # non-vacuity of the replay
         st = judge.stats
         for k in ("want_fwdref_only", "want_either", "defined_later_resolved", "usable_after_fwdref", "ev_compared",
-                  "forms_compared"):
+                  "forms_compared", "generic_bad_contents_via_forward_ref"):
             if st[k] == 0:
                 rep.machinery(f"vacuous replay: no executed call with {k}")
         missing = [r for r in DEVIATION_ROUTES if not judge.routes.get(r)]
